@@ -349,6 +349,9 @@ SHORT = {
 }
 
 TRANSPARENT_CALLS = {
+    # `x.take()` / `mem::take(&mut x)` evaluate to the value x had
+    "core::option::Option::<T>::take",
+    "core::mem::take",
     "core::option::Option::<T>::as_ref",
     "core::option::Option::<T>::as_mut",
     "core::option::Option::<T>::as_deref",
